@@ -116,14 +116,73 @@ def cases(tier, seed):
                        "resow": const.startswith("farmer") and bi % 2 == 0}
 
 
+    # the Crop factories of the three farmer kinds hand the batch request on
+    for far in ("runner", "harvester", "sampler"):
+        for n in (5, 10):
+            for mode, req in (("batchsize", 3), ("num_batches", 4),
+                              ("num_batches", 3), ("batchsize", 1),
+                              ("default", None)):
+                yield {"factory": far, "n": n, "mode": mode, "req": req}
+
+
 def worker_init():
     import xyzpy  # noqa
+
+
+def check_factory(case):
+    import xyzpy as xyz
+    from xyzpy.gen.cropping import grow
+
+    far, n, mode, req = case["factory"], case["n"], case["mode"], case["req"]
+    d = core.fresh_dir("c07.batches[2].xyz-result-2")
+    f = xfn.make_fn(["a"], kind="num", name="f07")
+    r = xyz.Runner(f, var_names="out")
+    if far == "harvester":
+        farmer = xyz.Harvester(r, data_name=os.path.join(d, "data.h5"))
+    elif far == "sampler":
+        farmer = xyz.Sampler(r, data_name=os.path.join(d, "t.pkl"),
+                             default_combos={"a": list(range(100))})
+    else:
+        farmer = r
+    kws = {} if mode == "default" else {mode: req}
+    vio = []
+    tag = "C07|factory-%s|%s|" % (far, mode)
+    try:
+        crop = farmer.Crop(name="c7", parent_dir=d, **kws)
+        if far == "sampler":
+            crop.sow_samples(n, verbosity=0)
+        else:
+            crop.sow_combos({"a": list(range(n))}, verbosity=0)
+        B = math.ceil(n / req) if mode == "batchsize" else (
+            min(req, n) if mode == "num_batches" else n)
+        c2 = xyz.Crop(name="c7", parent_dir=d)
+        rep = (crop.num_batches, c2.num_batches, c2.num_sown_batches)
+        if rep != (B, B, B):
+            vio.append((tag + "count", "%s.Crop(%s=%r), %d settings: "
+                        "num_batches=%r (reloaded %r, sown files %r), "
+                        "expected %d" % ((far, mode, req, n) + rep + (B,))))
+        else:
+            sizes = []
+            for i in range(1, B + 1):
+                with xfn.CallLog() as log:
+                    grow(i, crop=c2, fn=f, verbosity=0)
+                sizes.append(len(log.calls))
+            if sum(sizes) != n or min(sizes) == 0 or (
+                    mode == "batchsize" and max(sizes) > req) or (
+                    mode == "num_batches" and max(sizes) - min(sizes) > 1):
+                vio.append((tag + "sizes", "%s.Crop(%s=%r), %d settings: "
+                            "batch sizes %r" % (far, mode, req, n, sizes)))
+    except Exception as e:
+        vio.append((tag + "raised:" + type(e).__name__, repr(e)))
+    return {"nontrivial": True, "outcome": "factory", "violations": vio}
 
 
 def check_case(case):
     import xyzpy as xyz
     from xyzpy.gen.cropping import grow
 
+    if case.get("factory"):
+        return check_factory(case)
     n, mode, req = case["n"], case["mode"], case["req"]
     kind, shuffle, const = case["kind"], case["shuffle"], case["const"]
     combos, fn_args, cs = build_inputs(n, kind)
